@@ -137,7 +137,17 @@ def run(tier, seed, replay):
                 oracle_fail.append(dict(request=l[:600], implementation=o[:600], why="recipient %s: ordered channel out of sending order %r" % (key, ordered[:20])))
                 break
     rep.cov["backend_runs"] = dict(cases=nback, rule="real server + 1-3 client apps over loopback TCP through the backend plugins, up to 30 events per frame and direction, one oversized message to one client in some cases")
-    extra_evals = nback
+    # messages waiting in the socket before the receiver's FIRST frame (the server is several frames ahead of a new client)
+    import backendx
+    nlate = 12 if tier == "quick" else 200
+    late = [backendx.gen_late(rng) for _ in range(nlate)]
+    late_lines = ["backendx " + "/".join(st) for st, _ in late]
+    for l, o, (_, sent) in zip(late_lines, run_lines(harness_bin("kernels"), late_lines, shards=min(8, len(late_lines))), late):
+        why = backendx.judge_late(o, sent)
+        if why:
+            oracle_fail.append(dict(request=l[:600], implementation=o[:600], why=why))
+    rep.cov["backend_late_first_frame"] = dict(cases=nlate, rule="1-3 server frames with up to 21 broadcasts each before the first frame of a freshly connected client app, then several server frames between two client frames")
+    extra_evals = nback + nlate
     for l, a, b, e in zip(lines, impl, model, expect):
         if a != b:
             diverged.append(dict(request=l[:300], implementation=a[:300], model=b[:300]))
